@@ -30,8 +30,9 @@ Numerals == {[int |-> i, frac |-> f] : i \in IntParts, f \in Fracs}
 State(ph, sh, n) == [ph |-> ph, sh |-> sh, n |-> n]
 NoNum == [int |-> <<>>, frac |-> <<>>]
 Init == x = State("root", 0, NoNum)
-Next == \/ x.ph = "root" /\ \E i \in 1..Len(Shapes) : x' = State("shape", i, NoNum)
-        \/ x.ph = "shape" /\ \E n \in Numerals : x' = State("case", x.sh, n)
+PickShape == x.ph = "root" /\ \E i \in 1..Len(Shapes) : x' = State("shape", i, NoNum)
+PickNumeral == x.ph = "shape" /\ \E n \in Numerals : x' = State("case", x.sh, n)
+Next == PickShape \/ PickNumeral
 Spec == Init /\ [][Next]_x
 
 RoundTrip == x.ph = "case" => RoundTrips(x.n, Shapes[x.sh], Dev)
